@@ -80,13 +80,14 @@ def rbits : Nat → Bits → Option (Nat × Bits)
 
 def skipBits (n : Nat) (r : Bits) : Option Bits := if n ≤ r.length then some (r.drop n) else none
 
-/-- `skip_uvlc`: count zeros up to the first one; more than 32 zeros → None; then skip that many bits. -/
+/-- `skip_uvlc`: count zeros up to the first one; more than 32 zeros → None; then skip that many value
+    bits — none after exactly 32 zeros (value 2^32 − 1; repaired in /repo, see DESIGN 10.3). -/
 def skipUvlcAux : Nat → Bits → Nat → Option Bits
   | 0, _, _ => none
   | fuel + 1, r, lz =>
     match rbit r with
     | none => none
-    | some (true, r') => if lz > 0 then skipBits lz r' else some r'
+    | some (true, r') => if lz > 0 ∧ lz < 32 then skipBits lz r' else some r'
     | some (false, r') => if lz + 1 > 32 then none else skipUvlcAux fuel r' (lz + 1)
 
 def skipUvlc (r : Bits) : Option Bits := skipUvlcAux 34 r 0
